@@ -98,6 +98,8 @@ def failure_scenarios():
     sc.append(('kernel refusal at the initiator', dict(refuse='A')))
     sc.append(('kernel refusal of a delete', dict(refuse='A', refuse_kind='DELSA')))
     sc.append(('plain', dict()))
+    sc.append(('damaged copies before every protected datagram', dict(corrupt=4)))
+    sc.append(('damaged copies before every protected datagram, follow-ups by the responder', dict(corrupt=3, starter='B')))
     # the two peers list the same algorithms in opposite preference orders and the ORIGINAL RESPONDER starts the follow-up exchanges: an IKE_SA rekey then
     # changes the negotiated PRF / integrity / key length (each responder follows its own order) - whatever is said about the old and the new keys stays at DEBUG
     orders = {'A': {'ike_prf': ['sha256', 'sha512', 'sha1'], 'ike_integ': ['sha1', 'sha512'], 'ike_encr': ['aes128', 'aes256'], 'child_encr': ['aes256', 'aes128'], 'child_integ': ['sha512', 'sha1']},
@@ -143,6 +145,15 @@ def run_failure(name, spec, seed, keep_debug=False):
             hops = 0
             while m is not None and hops < 8:
                 nxt = w.peer_of(cur)
+                for i in range(spec.get('corrupt', 0)):
+                    # damaged copies of the protected datagram arrive first, several in a row (line noise, or somebody guessing): each fails the integrity
+                    # check - what is said about that, also the second and third time, says nothing about the keys
+                    d = bytearray(bytes(m))
+                    if i % 3 == 2:
+                        d = d[:-5]
+                    else:
+                        d[-1 - i] ^= 0x40
+                    w.dispatch(nxt, bytes(d), cur)
                 m = w.dispatch(nxt, m, cur)
                 cur = nxt
                 hops += 1
